@@ -52,7 +52,7 @@ CoreTokens == Tokens \ ({"-=", "*=", "/=", "%=", "<<=", ">>=", "&=", "|=", "^="}
                               "float", "bool", "0", "//", "/*", "*/"})
 
 \* names and literals used by the grammar's templates and contexts but not enumerated as tokens
-AuxTok == {"y", "s", "b", "a", "t", "r", "c", "it", "u", "m", "w", "ca", "nv", "f2", "mkt", "mkr", "mka", "mki", "n", "p", "q", "g", "e", "z", "h",
+AuxTok == {"y", "s", "b", "a", "t", "r", "c", "it", "u", "m", "w", "ca", "nv", "f2", "pr", "mkt", "mkr", "mka", "mki", "n", "p", "q", "g", "e", "z", "h",
            "2", "5", "64", "99999999999999999999",
            "\"@valid\"", "\"@invalid\"", "\"@illtyped\"", "\"@missing\"", "\"@dir\"", "\"@binary\"",
            "\"@self\""}
@@ -217,7 +217,7 @@ IterLit == <<"[", "1", "]", "~">>
 LitLeaves == {<<"1">>, <<"0">>, <<"1.5">>, <<"\"s\"">>, <<"true">>, <<"()">>, <<"[", "]">>,
               FnLit, CellLit, IterLit}
 \* (ca: a cell holding an array, nv: a parameter of type ! - both found necessary: see the findings)
-VarLeaves == {<<v>> : v \in {"x", "y", "s", "b", "a", "t", "r", "f", "f2", "c", "it", "u", "m", "w", "ca", "nv"}}
+VarLeaves == {<<v>> : v \in {"x", "y", "s", "b", "a", "t", "r", "f", "f2", "pr", "c", "it", "u", "m", "w", "ca", "nv"}}
 ELeaves == {Leaf("E", ts) : ts \in LitLeaves \cup VarLeaves \cup {<<"struct", "{", "}">>}}
 \* reduced leaf set used for the three-child forms in the quick tier
 QLeaves == {Leaf("E", ts) : ts \in {<<"1">>, <<"\"s\"">>, <<"x">>, <<"()">>, <<"[", "]">>, FnLit, <<"c">>,
@@ -333,13 +333,14 @@ HostPrelude == <<"x", ":=", "1", ";", "y", ":=", "1.5", ";", "s", ":=", "\"s\"",
    "r", ":=", "struct", "{", "a", ":=", "1", ",", "b", ":=", "1.5", "}", ";",
    "f", ":=", "(", "p", ":", "int", ")", "->", "int", "{", "return", "p", "}", ";",
    "f2", ":=", "(", "p", ":", "int", ",", "q", ":", "int", ")", "->", "int", "{", "return", "p", "}", ";",
+   "pr", ":=", "(", "p", ":", "int", ")", "->", "bool", "{", "return", "true", "}", ";",
    "c", ":=", "mut", "1", ";", "it", ":=", "[", "1", ",", "2", "]", "~", ";",
    "u", ":=", "1", ";", "m", ":=", "mut", "1", ";", "w", ":=", "\"s\"", ";",
    "ca", ":=", "mut", "[", "int", "]", "[", "1", "]", ";", "nv", ":=", "[", "]">>
 FnHead == <<"g", ":=", "(", "x", ":", "int", ",", "y", ":", "float", ",", "s", ":", "string", ",",
               "b", ":", "bool", ",", "a", ":", "[", "int", "]", ",", "t", ":", "(", "int", ",", "string", ",", "float", ")", ",",
               "r", ":", "struct", "{", "a", ":", "int", ",", "b", ":", "float", "}", ",",
-              "f", ":", "(", "int", ")", "->", "int", ",", "f2", ":", "(", "int", ",", "int", ")", "->", "int", ",", "c", ":", "mut", "int", ",",
+              "f", ":", "(", "int", ")", "->", "int", ",", "f2", ":", "(", "int", ",", "int", ")", "->", "int", ",", "pr", ":", "(", "int", ")", "->", "bool", ",", "c", ":", "mut", "int", ",",
               "it", ":", "(", ")", "->", "(", "bool", ",", "int", ")", ",", "u", ":", "int", "|", "float", ",",
               "m", ":", "mut", "int", "|", "mut", "float", ",", "w", ":", "any", ",",
               "ca", ":", "mut", "[", "int", "]", ",", "nv", ":", "!", ")", "->", "any", "{">>
@@ -348,6 +349,7 @@ Ctx(name, pre, post) == [name |-> name, pre |-> pre, post |-> post, mentions |->
 \* calls or to cells, so the checker knows their types but not their values.
 TopPrelude == <<"f", ":=", "(", "p", ":", "int", ")", "->", "int", "{", "return", "p", "}", ";",
    "f2", ":=", "(", "p", ":", "int", ",", "q", ":", "int", ")", "->", "int", "{", "return", "p", "}", ";",
+   "pr", ":=", "(", "p", ":", "int", ")", "->", "bool", "{", "return", "true", "}", ";",
    "mkt", ":=", "(", ")", "->", "(", "int", ",", "string", ",", "float", ")", "{", "return", "(", "1", ",", "\"s\"", ",", "1.5", ")", "}", ";",
    "t", ":=", "mkt", "(", ")", ";",
    "mkr", ":=", "(", ")", "->", "struct", "{", "a", ":", "int", ",", "b", ":", "float", "}", "{",
